@@ -8,6 +8,14 @@ PROPS = {
              "thorough": {"checks": 40000, "shards": 16, "timeout": 1500}},
         ],
     },
+    "C10": {
+        "level": "exploration",
+        "jobs": [
+            {"test": "TestC10", "variant": "std",
+             "quick": {"checks": 1500, "shards": 12, "timeout": 400},
+             "thorough": {"checks": 25000, "shards": 16, "timeout": 1800}},
+        ],
+    },
     "C13": {
         "level": "exploration",
         "jobs": [
